@@ -1,0 +1,16 @@
+//go:build verif
+
+package core
+
+// Contracts for the bridge core (property C16).
+// Comment-only file: it is compiled only with -tags verif and contains no code.
+
+// The relay goroutine of ImportAllSince: the import cursor (lastImportTime) is stored only when no
+// error event was relayed, whatever the importer sent.
+//@ func (*Bridge).ImportAllSince$1
+//@   props C16
+//@   ensures [cursor-only-if-clean] repository.cursorStores > old(repository.cursorStores) ==> (forall k int :: { recvat(events, k) } 0 <= k && k < recvcount(events) ==> recvat(events, k).Event != ImportEventError)
+//@   ensures [cursor-stored-once]   repository.cursorStores <= old(repository.cursorStores) + 1
+//@   loop 1
+//@     invariant recvcount(events) >= 0 && repository.cursorStores == old(repository.cursorStores)
+//@     invariant noError ==> (forall k int :: { recvat(events, k) } 0 <= k && k < recvcount(events) ==> recvat(events, k).Event != ImportEventError)
